@@ -41,8 +41,9 @@ CLAIMS = {
         text="Static soundness conditions of the unsafe re-typing behind NaN removal for all 14 element types: stride/pointer/length "
              "provenance of every from_shape_ptr (R2), size/align asserts dominating the pointer cast, repr(transparent) + private field of "
              "NotNone, audited inventory of every unsafe block/fn tied to its justifying guard (R3), NotNone only built from values known "
-             "Some (R11), no randomness in maybe_nan (R14). Decides aliasing/validity ('the returned view aliases only memory of the input', "
-             "'not-NaN typed values really are not NaN/None', determinism); does not decide the compaction's loop invariant or idempotence.",
+             "Some (R11), no randomness / no layout API in maybe_nan (R14, R1), and the compaction's postcondition proved by candidate "
+             "segment invariants (R21): every return is the prefix view[..x] with no missing value before x and only missing values from x "
+             "on – with the swap-only effect discipline this is 'exactly the non-missing elements, length = their count'.",
         design_ref="DESIGN.md §4 C04",
         note=NOTE_BASE,
         technique="static analysis: provenance + dominance rules over MIR, unsafe inventory from HIR",
@@ -165,14 +166,14 @@ CLAIMS = {
     ),
     "C15": dict(
         category="other",
-        text="Static decision of ONE clause of C15 – partition_mut never panics for an in-range pivot position, including length 1 – by a "
-             "zone (difference-bound) abstract interpretation of its MIR under the precondition pivot_index < len: every overflow assert "
-             "and every Index/swap bounds precondition is discharged by the computed invariants, for all array contents (comparisons are "
-             "non-deterministic). The rank/ordering postconditions are value-level and are NOT decided (static analysis cannot reach them "
-             "without an array-content domain).",
+        text="Static proof of partition_mut's contract on its MIR: (a) no panic for an in-range pivot incl. length 1, by zone abstract "
+             "interpretation discharging every overflow assert and Index/swap precondition; (b) the value-level postcondition – a[k] is "
+             "the pivot value, everything before k strictly smaller, everything after ≥ – by checking candidate segment invariants "
+             "(Houdini) along all loop-free path segments and all return paths, for every array content; (c) only swaps move data, so k "
+             "is the rank. Assumes Ord is a lawful total order; 'all 1-D view strides' follows from the code only using the logical API.",
         design_ref="DESIGN.md §4 C15",
         note=NOTE_BASE + " Callee contracts: len() ≤ isize::MAX; Index/swap panic iff index ≥ len.",
-        technique="static analysis: abstract interpretation (zone domain with widening/narrowing) over MIR",
+        technique="static analysis: abstract interpretation (zones) + candidate-invariant checking over array-segment predicates on MIR",
     ),
 }
 
